@@ -14,6 +14,7 @@ var vxErrOrigin = errors.New("vx: origin unreachable")
 // properties about responses served without origin contact (C01, C18, part of C11).
 func vxHitStep(withOrigin bool, kinds []int) {
 	vxND = vxBoundsB()
+	vxNoTimer = true
 	if withOrigin && vxTier() != "thorough" {
 		vxOptNoAge, vxOptNoExpires, vxOptNoMinFresh = true, true, true
 	}
@@ -213,6 +214,12 @@ func vxHitStep(withOrigin bool, kinds []int) {
 				}
 			}
 		}
+	}
+	if calls == 0 {
+		// background work started by the exchange (stale-while-revalidate) runs now: its
+		// origin call reaches the assertions of the origin script (C18)
+		vxRunAll()
+		vxAssert(vxBgPanics() == 0, "C10/background-panic")
 	}
 }
 
